@@ -519,8 +519,12 @@ fn _factor_inner<T: FloatT>(
     next_colspace.copy_from_slice(&Lp[0..Lp.len() - 1]);
 
     if !logical_factor {
-        // First element of the diagonal D.
-        D[0] = Ax[0];
+        // First element of the diagonal D.  Column 0 can only hold the
+        // diagonal entry; it is empty (and D[0] stays zero) when the ordering
+        // moved a column without a stored diagonal entry to the front
+        if Ap[1] > 0 {
+            D[0] = Ax[0];
+        }
         if regularize_enable {
             let sign = T::from_i8(Dsigns[0]).unwrap();
             if D[0] * sign < regularize_eps {
